@@ -558,6 +558,18 @@ def rule_finder_ignore_context(ck: Check, repo: Repo, rid: str = "R10") -> None:
     if consults:
         ck.assumptions.append(f"C07-{rid}: the finder consults ignore markers; that it does so correctly is not decided")
         return
+    # the block that is REPLACED: everything in it that is not REUSE information is dropped with it.  An ignore marker in
+    # the block (a `# REUSE-IgnoreEnd` line directly above the header lines) disappears, the ignore block is never closed,
+    # and the reader then drops the rest of the file - including the new header
+    repl = [repo.func(f"{HD}.find_and_replace_header"), repo.func(f"{HD}.create_header"), repo.func(f"{HD}._create_new_header")]
+    keeps = any(re.search(r"(?i)ignore", re.sub(r"\"\"\".*?\"\"\"", "", ast.unparse(f), flags=re.S)) for f in repl)
+    r.instance("replaced-block-markers", {"replacer_consults_ignore_markers": keeps}, f"{HD}.find_and_replace_header")
+    if not keeps:
+        r.violation(f"{HD}.find_and_replace_header", "an ignore marker inside the replaced comment block is dropped with the block",
+                    "`x = 1  # REUSE-IgnoreStart\\ny = \"SPDX-License-Identifier: GPL-2.0-only\"\\n# REUSE-IgnoreEnd\\n# SPDX-FileCopyrightText: 2020 Alice` +"
+                    " `annotate -c Bob -l MIT`: the block `# REUSE-IgnoreEnd / # SPDX-…Alice` is replaced by the new header, the end marker is gone,"
+                    " the ignore block now runs to the end of the file and NOTHING (Alice, Bob, MIT) is declared any more - exit 0",
+                    repo.loc(repl[0]))
     if not all(whole):
         r.violation(q, "the finder's predicate sees one comment at a time and never the ignore markers around it",
                     "`# REUSE-IgnoreStart\\n\\n# SPDX-License-Identifier: 0BSD\\nx=1\\n# REUSE-IgnoreEnd` + `annotate -c Jane -l MIT`: the inner"
